@@ -125,7 +125,7 @@ StartCall(pc, p) ==
     IF p.ph = "idle" /\ p.ncall < NCalls THEN
         { <<[e |-> "pstart", mode |-> m, at |-> p.now + g],
             [p EXCEPT !.ncall = @ + 1, !.now = p.now + g, !.t0 = p.now + g, !.mode = m,
-                      !.s = L!SInit(pc.rc),
+                      !.s = L!SInitM(pc.rc, m),
                       !.ph = IF ~pc.retry /\ pc.rc.abort THEN "prepoll" ELSE "allow"]>>
           : m \in Modes, g \in Gaps }
     ELSE {}
